@@ -8,6 +8,7 @@
 -/
 import CharsetProof.Model.Conc
 import CharsetProof.Props.C11
+import CharsetProof.Covered
 set_option linter.unusedSectionVars false
 namespace Charset
 variable {K V : Type} [DecidableEq K]
@@ -250,6 +251,16 @@ theorem C12_step_decreases (f : K → V) (ev : Evict K V) (s : Sys K V) (i : Nat
   | computed v => simp only; exact key _ (by simp [rank, hpc])
   | locked2 v => simp only; exact key _ (by simp [rank, hpc])
   | done v => simp [enabled, hpc] at hen
+
+/-- **T2(d) obligation** — the global mutable state of the current source is exactly the reviewed list
+    (immutable `Lazy` tables, plain constants and the four `Mutex`-guarded memo caches generated by
+    `#[cached]`); a new `static mut`, `Mutex`, `RefCell`, `thread_local!`, `unsafe` or atomic is an
+    uncovered site and fails this check -/
+theorem C12_globals_covered : (Inv.globals == Covered.globals) = true := by decide +kernel
+
+/-- the memoised functions are the ones of C11 (no `sync_writes`, which would hold a lock across the
+    body; no new cached function) -/
+theorem C12_cached_inventory : cachedInventoryOkB = true := C11_cached_inventory
 
 /-- non-vacuity: two threads on the same key, one concrete interleaving, both return f k -/
 example :
